@@ -22,6 +22,8 @@ TRUSTED = []
 ASSUMPTIONS = ['transport abstracted: recv(n) returns any byte string of length <= n (any length when n is None); send accepts the frame; connect succeeds or not',
                'decoder abstracted: any non-empty PDU yields a message whose function code is the first PDU byte (C01/C02 decide what decodes)',
                'request frame construction (buildPacket) and the RTU inter-frame waiting in sendPacket / recvPacket are abstracted in the pairing lemmas (C03 / not part of pairing)',
+               'the call-site abstractions FramerDelivers and TransactAny (units/client.py) are hand-written; what they assume is what the lemma units C08/filter.<kind>, C08/quiet.<kind> and C08/transact.<kind> prove on the real code in this same run - the correspondence between abstraction and lemma clauses is by inspection, not mechanised',
+               'computeCRC / computeLRC contracts are verified against their bodies in the C03 and C07 checks, not in this one',
                'number of deliveries per processIncomingPacket call split 0 / 1 / 2 / 1-then-raise at the call site (the client callback stores under one key: longer sequences leave the same state)']
 PROP = 'C08'
 CS = (K.ComputeCRC(), K.ComputeLRC())
